@@ -7,6 +7,5 @@ cd $B
 rm -f Extract.vo model.ml model.mli
 coqc -Q /verif/coq/theories JsonSyntax /verif/coq/theories/Extract/Extract.v -o $B/Extract.vo > $B/extract.log 2>&1 || { cat $B/extract.log; exit 1; }
 cp /verif/ocaml/*.ml $B/
-FAMS=$(ls /verif/ocaml/fam_*.ml | xargs -n1 basename)
-ocamlfind ocamlopt -O3 -unboxed-types 2>/dev/null >/dev/null || true
-ocamlfind ocamlopt -w -a -package unix -linkpkg model.mli model.ml glue.ml $FAMS driver.ml -o driver
+ORDER=$(ocamlfind ocamldep -sort model.ml glue.ml fam_*.ml driver.ml)
+ocamlfind ocamlopt -w -a -package unix -linkpkg model.mli $ORDER -o driver
